@@ -13,12 +13,13 @@ class Contract:
                  may_throw=False, ensures=(), ensures_exc=(), assigns=(), loops=None, scenarios=None,
                  inline=False, trusted=False, pure=False, ghost=None, auto=True, result_fresh=True,
                  prop_of=None, notes='', cls_targs=None, verify=True, terminates=True, unroll=None,
-                 reads_only=False, this_shape=None, extra_env=None, body_assumes=(), max_paths=4000):
+                 reads_only=False, this_shape=None, extra_env=None, body_assumes=(), max_paths=4000,
+                 returns_ref=None, timeout_ms=None, sig_not=None):
         self.name = name
         self.tu = tu
         self.sig = sig
         self.targs = targs
-        self.key = key or (name + (('|' + sig) if sig else '') + (('|<' + ','.join(targs) + '>') if targs else ''))
+        self.key = key or (name + (('|' + str(sig)) if sig else '') + (('|<' + ','.join(targs) + '>') if targs else ''))
         self.serves = tuple(serves)
         self.requires = list(requires)
         self.lets = dict(lets or {})
@@ -40,6 +41,9 @@ class Contract:
         self.extra_env = extra_env or {}
         self.body_assumes = list(body_assumes)
         self.max_paths = max_paths
+        self.returns_ref = returns_ref
+        self.sig_not = sig_not
+        self.timeout_ms = timeout_ms
 
     def props_for(self, label):
         return self.prop_of.get(label, self.serves)
@@ -54,23 +58,79 @@ def fn(name, tu, **kw):
     return c
 
 
+INLINE_PATTERNS = []
+_INLINE = {}
+
+
+def inline_fn(*patterns):
+    INLINE_PATTERNS.extend(patterns)
+
+
+_pat_cache = {}
+
+
+def _tup(x):
+    if x is None:
+        return ()
+    return (x,) if isinstance(x, str) else tuple(x)
+
+
+def sig_ok(c, typestr):
+    return all(x in typestr for x in _tup(c.sig)) and not any(x in typestr for x in _tup(c.sig_not))
+
+
+def name_matches(pattern, qualname):
+    """only the literal token <*> is a wildcard (template arguments); everything else is literal"""
+    if pattern == qualname:
+        return True
+    if '<*>' not in pattern:
+        return False
+    import re as _re
+    rx = _pat_cache.get(pattern)
+    if rx is None:
+        rx = _re.compile('^' + '<.*>'.join(_re.escape(x) for x in pattern.split('<*>')) + '$')
+        _pat_cache[pattern] = rx
+    return bool(rx.match(qualname))
+
+
 def lookup(qualname, typestr, targs=None):
     """contract matching a callee (qualified name + function type string)"""
+    import fnmatch
     best = None
     for k in ORDER:
         c = REGISTRY[k]
-        if c.name != qualname:
+        if not name_matches(c.name, qualname):
             continue
-        if c.sig is not None and c.sig not in (typestr or ''):
+        if not sig_ok(c, typestr or ''):
             continue
         if c.targs is not None and targs is not None and list(c.targs) != list(targs):
             continue
         if best is None or (c.sig and not best.sig):
             best = c
+    if best is None:
+        for pat in INLINE_PATTERNS:
+            if name_matches(pat, qualname):
+                if pat not in _INLINE:
+                    _INLINE[pat] = Contract(pat, None, inline=True, verify=False, key='inline:' + pat)
+                return _INLINE[pat]
     return best
 
 
 # ---------------------------------------------------------------------------------------------
+_R = z3.RealSort()
+# complex quotient (a+bi)/(c+di) as defined functions; the defining axiom CDIV_DEF is assumed only where
+# the leaf operators of cmplx_t are verified against it (keeps non-linear division out of array-level VCs)
+CDIV_RE = z3.Function('cdiv_re', _R, _R, _R, _R, _R)
+CDIV_IM = z3.Function('cdiv_im', _R, _R, _R, _R, _R)
+
+
+def cdiv_def():
+    a, b, c, d = z3.Reals('a!cd b!cd c!cd d!cd')
+    den = c * c + d * d
+    return z3.ForAll([a, b, c, d], z3.And(CDIV_RE(a, b, c, d) == (a * c + b * d) / den,
+                                          CDIV_IM(a, b, c, d) == (b * c - a * d) / den))
+
+
 class W:
     """wrapper making value trees pleasant in spec expressions"""
 
@@ -113,8 +173,69 @@ class W:
             return self._env.wrap(select(v.data, i))
         raise TypeError('spec: cannot index %r' % (t,))
 
+    # complex field arithmetic (textbook formulas, the oracle for cmplx_t's operators)
+    def _ri(self, o):
+        if isinstance(o, W):
+            t = o._t
+            return t.f['re'], t.f['im']
+        if isinstance(o, (int, float)):
+            o = z3.RealVal(o)
+        if z3.is_expr(o) and z3.is_int(o):
+            o = z3.ToReal(o)
+        return o, z3.RealVal(0)
+
+    def _mk(self, re, im):
+        return W(self._env, SVal('dsplib::cmplx_t', {'re': re, 'im': im}))
+
+    def __add__(self, o):
+        a, b = self._ri(self)
+        c, d = self._ri(o)
+        return self._mk(a + c, b + d)
+
+    __radd__ = __add__
+
+    def __sub__(self, o):
+        a, b = self._ri(self)
+        c, d = self._ri(o)
+        return self._mk(a - c, b - d)
+
+    def __rsub__(self, o):
+        a, b = self._ri(self)
+        c, d = self._ri(o)
+        return self._mk(c - a, d - b)
+
+    def __mul__(self, o):
+        a, b = self._ri(self)
+        c, d = self._ri(o)
+        return self._mk(a * c - b * d, a * d + b * c)
+
+    __rmul__ = __mul__
+
+    def __truediv__(self, o):
+        a, b = self._ri(self)
+        c, d = self._ri(o)
+        if not isinstance(o, W):
+            return self._mk(a / c, b / c)
+        return self._mk(CDIV_RE(a, b, c, d), CDIV_IM(a, b, c, d))
+
+    def __rtruediv__(self, o):
+        c, d = self._ri(self)
+        a, b = self._ri(o)
+        return self._mk(CDIV_RE(a, b, c, d), CDIV_IM(a, b, c, d))
+
+    def __neg__(self):
+        a, b = self._ri(self)
+        return self._mk(-a, -b)
+
+    def conj(self):
+        a, b = self._ri(self)
+        return self._mk(a, -b)
+
     def __eq__(self, other):
         o = other._t if isinstance(other, W) else other
+        if isinstance(self._t, SVal) and set(self._t.f) == {'re', 'im'} and not isinstance(o, SVal):
+            c, d = self._ri(other)
+            return z3.And(self._t.f['re'] == c, self._t.f['im'] == d)
         a, b = self._t, o
         if isinstance(a, SVal) and set(a.f) == {'_vec'} and isinstance(b, SVal):
             return vec_eq(a.f['_vec'], b.f['_vec'])
@@ -225,7 +346,59 @@ def zmin(a, b):
     return z3.If(a <= b, a, b)
 
 
+def cx(x, im=None):
+    """lift a real (or a pair) to a complex spec value"""
+    if isinstance(x, W):
+        return x
+    if isinstance(x, (int, float)):
+        x = z3.RealVal(x)
+    if z3.is_int(x):
+        x = z3.ToReal(x)
+    if im is None:
+        im = z3.RealVal(0)
+    elif isinstance(im, (int, float)):
+        im = z3.RealVal(im)
+    return W(None, SVal('dsplib::cmplx_t', {'re': x, 'im': im}))
+
+
+def _arith(op):
+    def f(a, b):
+        if isinstance(a, W) and not isinstance(b, W) and op == '/':
+            return a / b           # complex / real = (re/b, im/b)
+        if isinstance(a, W) or isinstance(b, W):
+            a, b = cx(a), cx(b)
+        else:
+            if isinstance(a, (int, float)):
+                a = z3.RealVal(a)
+            if isinstance(b, (int, float)):
+                b = z3.RealVal(b)
+            if z3.is_int(a) and z3.is_real(b):
+                a = z3.ToReal(a)
+            if z3.is_real(a) and z3.is_int(b):
+                b = z3.ToReal(b)
+        return {'+': lambda: a + b, '-': lambda: a - b, '*': lambda: a * b, '/': lambda: a / b}[op]()
+    return f
+
+
+def eqv(a, b):
+    """equality with real -> complex promotion"""
+    if isinstance(a, W) or isinstance(b, W):
+        a, b = cx(a), cx(b)
+        return a == b
+    if isinstance(a, (int, float)):
+        a = z3.RealVal(a)
+    if isinstance(b, (int, float)):
+        b = z3.RealVal(b)
+    if z3.is_int(a) and z3.is_real(b):
+        a = z3.ToReal(a)
+    if z3.is_real(a) and z3.is_int(b):
+        b = z3.ToReal(b)
+    return a == b
+
+
 BASE_NS = {
+    'add': _arith('+'), 'sub': _arith('-'), 'mul': _arith('*'), 'div': _arith('/'), 'eqv': eqv,
+    'cx': cx, 'CDIV_DEF': cdiv_def,
     'And': z3.And, 'Or': z3.Or, 'Not': z3.Not, 'Implies': z3.Implies, 'If': z3.If, 'Xor': z3.Xor,
     'forall': lambda f: _bounded('A', f), 'exists': lambda f: _bounded('E', f),
     'INT_MIN': INT_MIN, 'INT_MAX': INT_MAX, 'tdiv': tdiv, 'tmod': tmod, 'absz': zabs, 'zmax': zmax, 'zmin': zmin,
